@@ -419,6 +419,16 @@ Definition trailer_elided (h : header) : bool :=
 Definition trailers_h2 (ts : list header) : list header :=
   filter (fun h => negb (trailer_elided h)) ts.
 
+(** [pkawa::elide_proxy_owned_trailers], run by mux/h1.rs and mux/h2.rs on
+    every request trailer section: the attribution fields and the correlation
+    header are dropped, whatever their case. *)
+Definition trailer_owned (c : ctx) (h : header) : bool :=
+  eq_nc (fst h) (B "x-forwarded-for") || eq_nc (fst h) (B "forwarded") ||
+  eq_nc (fst h) (B "x-real-ip") || eq_nc (fst h) (B "x-request-id") ||
+  eq_nc (fst h) (c_idname c).
+Definition edit_trailers (c : ctx) (ts : list header) : list header :=
+  filter (fun h => negb (trailer_owned c h)) ts.
+
 (* ------------------------------------------------------------------ *)
 (** * Serialisers *)
 
